@@ -209,9 +209,10 @@ def main(tier, seed, replay=None):
                         if m[0] == "none":
                             same = hres is None
                         else:
+                            # the own tuple may repeat an annotation (annotate() applied twice); the two caches are sets
                             mo, mu, mr = [sorted((int(i), k) for i, k in part) for part in m[1]]
-                            same = hres is not None and mo == aset(hres.annotations) and mu == aset(hres._uneliminatable_annotations) \
-                                and mr == aset(hres._relocatable_annotations)
+                            same = hres is not None and mo == aset(hres.annotations) and sorted(set(mu)) == aset(set(hres._uneliminatable_annotations)) \
+                                and sorted(set(mr)) == aset(set(hres._relocatable_annotations))
                         if not same and mismatch is None:
                             mismatch = {"kind": "model/implementation mismatch", "function": "_handle_annotations", "simp": abs_s, "args": abs_a,
                                         "model": m, "real": None if hres is None else [aset(hres.annotations), aset(hres._uneliminatable_annotations),
